@@ -544,6 +544,21 @@ static Outcome run_variant(const Case &c) {
     bl = (size_t)nullbodylen;  // documented: body == NULL means no body; the length is then meaningless
   char *sha = nullptr, *date = nullptr, *auth = nullptr, *qs = nullptr;
   int rc = 0;
+  // History: in half of the cases with a body the same buffer (same address, same length) has just been signed with OTHER contents --
+  // an application re-using its upload buffer.  Results must not depend on what was signed before.
+  bool primed = bodykind == 2 && variant != 1 && ((seed >> 3) & 1);
+  if (primed) {
+    std::string other = prbytes(seed ^ 0x5eed, body.size());
+    if (other == body) other[0] ^= 1;
+    memcpy(bp, other.data(), other.size());
+    char *s1 = nullptr, *d1 = nullptr, *a1 = nullptr;
+    int rc1 = variant == 0 ? shim_s3_headers(k1, k2, k3, k4, k5, k6, bp, bl, &s1, &d1, &a1)
+                           : variant == 2 ? shim_svc_headers(k1, k2, k3, k5, bp, bl, &s1, &d1, &a1) : shim_dynamodb_headers(k1, k2, k3, k5, bp, bl, &s1, &d1, &a1);
+    if (rc1 == 0) free(s1), free(d1), free(a1);
+    memcpy(bp, body.data(), body.size());
+    shim_time_set(t0, step);
+    o.cls("same-buffer-signed-before-with-other-contents");
+  }
   switch (variant) {
   case 0: rc = shim_s3_headers(k1, k2, k3, k4, k5, k6, bp, bl, &sha, &date, &auth); break;
   case 1: qs = shim_s3_querystr(k1, k2, k3, k4, k5, k6, (int)expiry); rc = qs ? 0 : -1; break;
